@@ -166,6 +166,28 @@ Proof. rewrite <- odd_mod2. apply Z.div_mod. lia. Qed.
 
 (** ** The loops *)
 
+(** Small robustness layer: comparisons of the generated code ([c_ge], [c_gt], ...) are decided by [lia] wherever
+    it can, and checked operations on literals ([-1] is [sneg i32 1] in the AST) are evaluated, so that harmless
+    rewrites of the C++ ([nBit > -1] for [nBit >= 0]) stay within reach of the proofs. *)
+Ltac cmp_lia :=
+  unfold c_ge, c_gt, c_le, c_lt;
+  repeat match goal with
+  | |- context [?a <=? ?b] =>
+      first [ replace (a <=? b) with true by (symmetry; apply Z.leb_le; lia)
+            | replace (a <=? b) with false by (symmetry; apply Z.leb_gt; lia) ]
+  | |- context [?a <? ?b] =>
+      first [ replace (a <? b) with true by (symmetry; apply Z.ltb_lt; lia)
+            | replace (a <? b) with false by (symmetry; apply Z.ltb_ge; lia) ]
+  end.
+
+Ltac closed_ops :=
+  repeat match goal with
+  | |- context [sneg ?t ?c] => is_Zlit c; let v := eval vm_compute in (sneg t c) in change (sneg t c) with v
+  | |- context [ssub ?t ?a ?c] => is_Zlit a; is_Zlit c; let v := eval vm_compute in (ssub t a c) in change (ssub t a c) with v
+  | |- context [sadd ?t ?a ?c] => is_Zlit a; is_Zlit c; let v := eval vm_compute in (sadd t a c) in change (sadd t a c) with v
+  end;
+  cbn [obind].
+
 (** [inc]: reverse increment of the [j] bits below the base [B] (a multiple of [2^j]). *)
 Lemma inc_loop_spec (j : nat) : forall (fuel : nat) m x,
   (j < fuel)%nat -> (j <= 64)%nat -> 0 <= m -> (m + 1) * 2 ^ Z.of_nat j <= 2 ^ 64 -> 0 <= x < 2 ^ Z.of_nat j ->
@@ -175,8 +197,8 @@ Lemma inc_loop_spec (j : nat) : forall (fuel : nat) m x,
 Proof.
   induction j as [|k IH]; intros fuel m x Hf Hj Hm HB Hx.
   - destruct fuel as [|fuel]; [lia|]. cbn [Z.of_nat] in *. change (2 ^ 0) with 1 in *.
-    assert (x = 0) as -> by lia. exists (-1). cbn [brc_inc_loop1]. change (c_ge (0 - 1) 0) with false.
-    rewrite rev_0_l. cbn. split; [do 2 f_equal; lia | reflexivity].
+    assert (x = 0) as -> by lia. exists (-1). cbn [brc_inc_loop1]. closed_ops. cmp_lia.
+    rewrite rev_0_l. split; [do 2 f_equal; lia | reflexivity].
   - destruct fuel as [|fuel]; [lia|].
     rewrite Nat2Z.inj_succ, <- Z.add_1_r in *. set (K := Z.of_nat k) in *.
     assert (HK : 0 <= K < 64) by lia.
@@ -184,7 +206,7 @@ Proof.
     pose proof (pow2_succ K ltac:(lia)) as Hs.
     pose proof (rev_range (K + 1) x ltac:(lia)) as Hr.
     replace (K + 1 - 1) with K by lia.
-    cbn [brc_inc_loop1]. unfold c_ge. replace (0 <=? K) with true by (symmetry; apply Z.leb_le; lia).
+    cbn [brc_inc_loop1]. closed_ops. cmp_lia.
     assert (HR : 0 <= m * 2 ^ (K + 1) + rev (K + 1) x < 2 ^ 64).
     { assert (0 <= m * 2 ^ (K + 1)) by (apply Z.mul_nonneg_nonneg; lia).
       rewrite Z.mul_add_distr_r in HB. lia. }
@@ -230,8 +252,8 @@ Lemma dec_loop_spec (j : nat) : forall (fuel : nat) m x,
 Proof.
   induction j as [|k IH]; intros fuel m x Hf Hj Hm HB Hx.
   - destruct fuel as [|fuel]; [lia|]. cbn [Z.of_nat] in *. change (2 ^ 0) with 1 in *.
-    assert (x = 0) as -> by lia. exists (-1). cbn [brc_dec_loop1]. change (c_ge (0 - 1) 0) with false.
-    rewrite rev_0_l. cbn. split; [do 2 f_equal; lia | reflexivity].
+    assert (x = 0) as -> by lia. exists (-1). cbn [brc_dec_loop1]. closed_ops. cmp_lia.
+    rewrite rev_0_l. split; [do 2 f_equal; lia | reflexivity].
   - destruct fuel as [|fuel]; [lia|].
     rewrite Nat2Z.inj_succ, <- Z.add_1_r in *. set (K := Z.of_nat k) in *.
     assert (HK : 0 <= K < 64) by lia.
@@ -239,7 +261,7 @@ Proof.
     pose proof (pow2_succ K ltac:(lia)) as Hs.
     pose proof (rev_range (K + 1) x ltac:(lia)) as Hr.
     replace (K + 1 - 1) with K by lia.
-    cbn [brc_dec_loop1]. unfold c_ge. replace (0 <=? K) with true by (symmetry; apply Z.leb_le; lia).
+    cbn [brc_dec_loop1]. closed_ops. cmp_lia.
     assert (HR : 0 <= m * 2 ^ (K + 1) + rev (K + 1) x < 2 ^ 64).
     { assert (0 <= m * 2 ^ (K + 1)) by (apply Z.mul_nonneg_nonneg; lia).
       rewrite Z.mul_add_distr_r in HB. lia. }
@@ -336,12 +358,7 @@ Proof.
   destruct (Z.eqb_spec n 0) as [->|Hn0].
   - (* empty counter *)
     destruct fuel as [|fuel]; [lia|].
-    unfold brc_inc, brc_init. cbn [brc_m_nCounter brc_m_nReversed brc_m_nHighBit].
-    change (ssub i32 (-1) 1) with (Some (-2)). cbn [obind brc_inc_loop1].
-    change (c_ge (-2) 0) with false. cbv iota. cbn [obind].
-    change (c_lt (-2) 0) with true. cbv iota.
-    change (sadd i32 (-1) 1) with (Some 0). cbn [obind].
-    change (uadd u64 0 1) with 1. change (0 + 1) with 1.
+    transitivity (Some (1, mk_brc 1 1 0)); [reflexivity|]. change (0 + 1) with 1.
     unfold st. change (1 =? 0) with false. cbv iota. rewrite slot_of_1. reflexivity.
   - destruct (log2_bounds n ltac:(lia)) as [Hh Hb]. pose proof (log2_lt64 n ltac:(lia)) as Hh64.
     set (h := Z.log2 n) in *.
@@ -359,12 +376,12 @@ Proof.
     unfold slot_of at 1. fold h. rewrite He. cbn [obind].
     destruct (Z.ltb_spec (n - 2 ^ h + 1) (2 ^ h)) as [Hlt|Hge].
     + (* same level *)
-      unfold c_lt. replace (nb <? 0) with false by (symmetry; apply Z.ltb_ge; lia). cbn [obind].
+      cmp_lia. cbn [obind].
       assert (Hl : Z.log2 (n + 1) = h) by (apply log2_unique'; lia).
       unfold st. replace (n + 1 =? 0) with false by (symmetry; apply Z.eqb_neq; lia).
       unfold slot_of. rewrite Hl. replace (n + 1 - 2 ^ h) with (n - 2 ^ h + 1) by lia. reflexivity.
     + (* level complete: n + 1 = 2^(h+1) *)
-      subst nb. change (c_lt (-1) 0) with true. cbv iota.
+      subst nb. cmp_lia. cbv iota.
       assert (Hs2 : sadd i32 h 1 = Some (h + 1)) by (apply checked_some, i32_small; lia).
       rewrite Hs2. cbn [obind].
       assert (Hn1 : n + 1 = 2 ^ (h + 1)) by (rewrite pow2_succ by lia; lia).
@@ -397,12 +414,12 @@ Proof.
   unfold slot_of at 1. fold h. rewrite He. cbn [obind].
   destruct (Z.ltb_spec 0 (n + 1 - 2 ^ h)) as [Hlt|Hge].
   - (* same level *)
-    unfold c_lt. replace (nb <? 0) with false by (symmetry; apply Z.ltb_ge; lia). cbn [obind].
+    cmp_lia. cbn [obind].
     assert (Hl : Z.log2 n = h) by (apply log2_unique'; lia).
     unfold st. replace (n =? 0) with false by (symmetry; apply Z.eqb_neq; lia).
     unfold slot_of. fold h. rewrite Hl. replace (n + 1 - 2 ^ h - 1) with (n - 2 ^ h) by lia. reflexivity.
   - (* level emptied: n + 1 = 2^h *)
-    subst nb. change (c_lt (-1) 0) with true. cbv iota.
+    subst nb. cmp_lia. cbv iota.
     cbn [obind].
     assert (Hn1 : n = 2 ^ h - 1) by lia.
     unfold slot_of; fold h.
